@@ -4,6 +4,7 @@
 import Xandikos.Http.Multiget
 import Xandikos.Py.UrlProofs
 import Xandikos.Tie.HrefEq
+import Xandikos.Tie.MultigetEq
 
 namespace Xandikos.Theorems.C17
 open Xandikos Xandikos.Http Xandikos.Store Xandikos.Py
@@ -151,6 +152,19 @@ theorem each_href_once {ρ : Type} (lookup : String → Option ρ) (script : Str
   simp only [keysOf, hrefsOf, List.flatMap_nil, List.append_nil, List.nil_append] at hp
   rw [hk]
   exact ⟨hp, (List.Perm.nodup_iff hp).mpr (nodup_dedup hrefs)⟩
+
+/-- **the code is the model**: the two loops of `webdav._get_resources_by_hrefs`, as translated
+    from /repo on this run, compute `resourcesByHrefs` (and `paths[relpath]` never raises) -/
+theorem code_is_model_resources_by_hrefs {ρ : Type} (lookup : String → Option ρ) (script : String)
+    (hrefs : List String) :
+    Generated.resources_by_hrefs lookup script hrefs = .ok (resourcesByHrefs lookup script hrefs) :=
+  Tie.resources_by_hrefs_eq lookup script hrefs
+
+/-- **on the translated code: every distinct requested href is answered exactly once** -/
+theorem code_each_href_once {ρ : Type} (lookup : String → Option ρ) (script : String) (hrefs : List String) :
+    ∃ rows, Generated.resources_by_hrefs lookup script hrefs = .ok rows ∧
+      (rows.map (·.1)).Perm (dedup hrefs) ∧ (rows.map (·.1)).Nodup :=
+  ⟨_, code_is_model_resources_by_hrefs lookup script hrefs, each_href_once lookup script hrefs⟩
 
 /-- **The answer for an href is a function of that href alone**: whatever else was requested,
     the resource reported for `h` is the one its own path resolves to (`none`: 404). -/
